@@ -17,6 +17,12 @@ fn main() {
         println!("HARNESS-ERROR: reference model self-check failed: {}", e);
         std::process::exit(3);
     }
+    if args[1] == "child-answer" {
+        // a brand-new process answers one text with fresh objects (C19: nothing kept per process may matter)
+        let txt = std::fs::read_to_string(&args[2]).unwrap_or_default();
+        print!("{}", c19::answer_for_child(&txt));
+        std::process::exit(0);
+    }
     if args[1] == "replay" {
         std::process::exit(replay(&args[2]));
     }
